@@ -629,6 +629,11 @@ class Topology(ABC):
         # check nodes
         for n in self.nodes.values():
             n.validate_constraints()
+        # self.nodes hides facility nodes, their constraints apply all the same
+        facilities = self.facilities
+        if facilities:
+            for n in facilities.values():
+                n.validate_constraints()
 
         check_num_instances = set()
         # check network services, interfaces, sites
